@@ -3,7 +3,7 @@ Driver for C17: reads cases of op lines produced by the Go harness (which ran th
 and judges each case:
   * SPEC on the OBSERVED output first: the observed executor / checkpoint events, in the order they happened, are fed
     to the property monitor of Kap/Spec/C17.lean (every clause: released-is-silent, no-overlap,
-    consecutive-in-order-once, never-early, checkpoint-…), the quiescent liveness clause `dueIdle` is evaluated after
+    consecutive-in-order-once, never-early with the EXACT offset in ms, checkpoint-…), the quiescent liveness clause `dueIdle` is evaluated after
     every op, and Schedule/Release/clock moves must have returned (returns-promptly);
   * then observed = model: events per task id, the btree contents, the uniqueness index, `s.when`, the pending tick.
 -/
@@ -57,7 +57,7 @@ def brIf (p : Bool) (b : String) : List String := if p then [b] else []
 def renderList (l : List String) : String := if l.isEmpty then "-" else ",".intercalate l
 
 def renderQueue (q : List Item) : String :=
-  renderList (q.map (fun it => s!"{it.whn}:{it.id}:{it.next}:{it.off}"))
+  renderList (q.map (fun it => s!"{it.whn}:{it.id}:{it.next}:{secUp it.off}"))   -- `Item.Offset`
 
 def renderIndex (ix : List (Nat × Int)) : String :=
   renderList ((ix.mergeSort (fun a b => decide (a.1 ≤ b.1))).map (fun p => s!"{p.1}:{p.2}"))
@@ -128,18 +128,19 @@ def opBranches (E : Env) (op : Op) (s : St) : List String :=
     match E.nx sc last with
     | none => ["sched-next-error"]
     | some nt =>
+      let o := off * 1000 + frac
       [if (aget s.index id).isSome then "sched-replace" else "sched-new",
        (match s.swhen with
         | none => "sched-arm-when-zero"
-        | some w => if w > (nt + off) * 1000 + frac then "sched-rearm-earlier" else "sched-no-rearm")] ++
-      brIf (nt + off ≤ s.now) "sched-already-due" ++
-      brIf (frac > 0) "subsecond-offset-positive" ++
+        | some w => if w > nt * 1000 + o then "sched-rearm-earlier" else "sched-no-rearm")] ++
+      brIf (nt + secUp o ≤ s.now) "sched-already-due" ++
+      brIf (early o == 1) "subsecond-offset-positive-rounded-up" ++
       brIf (frac < 0) "subsecond-offset-negative" ++
       brIf ((aget s.busy (E.wk id)).any (fun it => it.id == id && nt < it.next)) "resched-in-flight-earlier-next" ++
       brIf ((aget s.busy (E.wk id)).any (fun it => it.id == id && nt == it.next)) "resched-in-flight-same-next" ++
       brIf (off < 0) "negative-offset" ++
       brIf ((aget s.busy (E.wk id)).any (fun it => it.id == id)) "resched-while-in-flight" ++
-      brIf (s.queue.any (fun it => it.whn == nt + off && it.id != id)) "equal-when-tie" ++
+      brIf (s.queue.any (fun it => it.whn == nt + secUp o && it.id != id)) "equal-when-tie" ++
       brIf s.spinning "sched-while-spinning"
   | .rel id =>
     [if (aget s.index id).isSome then "release-scheduled" else "release-absent"] ++
@@ -153,7 +154,7 @@ def opBranches (E : Env) (op : Op) (s : St) : List String :=
      | some it =>
        brIf (it.whn == s.now + d && d > 0) "adv-exactly-due" ++
        brIf (it.whn == s.now + d + 1) "adv-one-short" ++
-       brIf (match E.nx it.sc it.next with | some n => n + it.off ≤ s.now + d | none => false) "adv-jumps-over-occurrences"
+       brIf (match E.nx it.sc it.next with | some n => n + secUp it.off ≤ s.now + d | none => false) "adv-jumps-over-occurrences"
      | none => ["adv-empty-queue"])
   | .done id res cpok =>
     match aget s.busy (E.wk id) with
@@ -299,8 +300,6 @@ def judge (_id : String) (lines : Array String) : Verdict := Id.run do
   let env := mkEnv tbls wks
   -- PASS 1: the property on the OBSERVED output of the whole case (independent of the model)
   let mut mon : Mon := {}
-  let mut fracs : List (Nat × (Int × Int)) := []     -- id ↦ (whole-second offset, sub-second part in ms) of its scheduling
-  let mut knownSub : Option String := none
   for l in lines do
     let (opTr, obsr) := splitObs (tokens l)
     if opTr.head? == some "cfg" then continue
@@ -319,27 +318,14 @@ def judge (_id : String) (lines : Array String) : Verdict := Id.run do
     if evToks.any (fun t => t.startsWith "o:") then return .specfail "no-overlap" s!"{" ".intercalate opT}: two Execute calls of one task at once ({evTok})"
     let some obsEvs := evToks.mapM parseEv | return .badop l
     let callEv : List Ev := match op with
-      | .sched id sc off last _ => if status == "ok" then [.sched id sc off last] else [.schedErr id]
+      | .sched id sc off last fr => if status == "ok" then [.sched id sc (off * 1000 + fr) last] else [.schedErr id]
       | .rel id => [.rel id]
       | .adv d => if status == "refused" then [] else [.clock (mon.now + d)]
       | .done .. => []
-    match op with
-    | .sched id _ off _ fr => if status == "ok" then fracs := aset fracs id (off, fr)
-    | _ => pure ()
     match monRun env.nx mon (callEv ++ obsEvs.map (·.1)) with
     | .error clause => return .specfail clause s!"at `{" ".intercalate opT}` observed {evTok}"
     | .ok m' => mon := m'
-    -- never-early with the EXACT offset (the monitor above judged it with the whole-second Item.Offset)
-    for p in obsEvs do
-      match p.1 with
-      | .start id occ _ =>
-        let (off, fr) := (aget fracs id).getD (0, 0)
-        if (occ + off) * 1000 + fr > mon.now * 1000 then
-          if earlyBySubsecond off fr occ mon.now then
-            knownSub := some s!"at `{" ".intercalate opT}` task {id} occurrence {occ} offset {off}s+{fr}ms started at clock {mon.now}"
-          else return .specfail "never-early" s!"at `{" ".intercalate opT}` observed {evTok}"
-      | _ => pure ()
-    let idle := dueIdle env.wk (fun id => ((aget fracs id).getD (0, 0)).2) mon
+    let idle := dueIdle env.wk mon
     if !idle.isEmpty then
       return .specfail "due-run-dispatched" s!"after `{" ".intercalate opT}` task(s) {idle} have a due occurrence, an idle worker and no run"
   -- PASS 2: observed = model, op by op
@@ -362,7 +348,7 @@ def judge (_id : String) (lines : Array String) : Verdict := Id.run do
     let some obsEvs := evToks.mapM parseEv | return .badop l
     let s := c.model
     let callEv : List Ev := match op with
-      | .sched id sc off last _ => if status == "ok" then [.sched id sc off last] else [.schedErr id]
+      | .sched id sc off last fr => if status == "ok" then [.sched id sc (off * 1000 + fr) last] else [.schedErr id]
       | .rel id => [.rel id]
       | .adv d => if status == "refused" then [] else [.clock (c.mon.now + d)]
       | .done .. => []
@@ -415,9 +401,6 @@ def judge (_id : String) (lines : Array String) : Verdict := Id.run do
     | some d => return .mismatch s!"`{" ".intercalate opT}`: {d}"
     | none => pure ()
     if s'.now != c.mon.now then return .mismatch "clock"
-  match knownSub with
-  | some d => return .known "subsecond-offset-truncated" d
-  | none => pure ()
   let nt := c.starts ≥ 3 && c.interesting ≥ 1
   return .ok nt c.branches.reverse
 
